@@ -430,6 +430,19 @@ def r05_7(run, model):
         break
     if not found:
         raise AnalysisIncomplete("resolve_expr: ELet arm not found")
+    # and those are the only places where resolve_expr introduces pattern binders: a `let` taken apart elsewhere (component by
+    # component in the block arm) makes the binders of earlier components visible in later initialisers
+    m0 = next(iter(S.find(f.body, "Match")), None)
+    if m0 is not None:
+        for arm in m0["arms"]:
+            head = re.sub(r"\{.*", "", S.norm_ws(run.facts.text(NR, arm["pat"]["sp"])))
+            calls = [c for c in S.walk(arm["body"]) if c["k"] == "MethodCall" and c["method"] == "resolve_pat"]
+            if not calls:
+                continue
+            ok = head.endswith("ELet") or head.endswith("EMatch")
+            run.ob("R05.7", f"resolve_expr|{head.split('::')[-1]}: patterns are resolved where a let or a match arm is", ok, site(NR, calls[0]["sp"]),
+                   f"{len(calls)} resolve_pat call(s) in the arm for {head}",
+                   witness="let (a, b) = (b, a) no longer swaps: the `a` of the initialiser resolves to the binder the first component just introduced")
 
 
 def r05_8(run, model):
